@@ -137,17 +137,9 @@ def _compiled(ctx, model):
         raise AnalysisError("CompiledExpression pickling methods not found")
     params = [a.arg for a in fn.node.args.args][1:]
     stored = {}
-    for a in ast.walk(fn.node):
-        if isinstance(a, ast.Assign) and len(a.targets) == 1 and \
-                ast.unparse(a.targets[0]).startswith("self."):
-            for p_ in params:
-                if p_ in {n.id for n in ast.walk(a.value)
-                          if isinstance(n, ast.Name)}:
-                    stored.setdefault(p_, ast.unparse(a.targets[0]))
-    r = [x for x in ast.walk(gs.node) if isinstance(x, ast.Return)]
-    state = ast.unparse(r[0].value).replace(" ", "").strip("()") if r else ""
-    want = ",".join(stored.get(p_, "?") for p_ in params)
-    ok = state == want and "self._compile(*state)" in ast.unparse(ss.node)
+    from ..rules import rebuild_state_agrees
+    ok, state_attrs = rebuild_state_agrees(ce)
+    state = ",".join(str(a) for a in state_attrs)
     ctx.ob("S/compiled/pickle-state", ok, ce.loc(),
            "state = _compile's arguments in order; __setstate__ re-compiles"
            if ok else
